@@ -170,10 +170,28 @@ fn feed_step(st: &mut State, step: &Step, counts: &mut Vec<&'static str>) -> Res
     if sink_kind == 3 {
         counts.push("fault.foreign_module");
     }
+    // a callback's body may itself feed another callback (two closure callbacks active at once)
+    let nested = sink_kind == 0 && step.arg(5) & 2 == 2;
+    let mut inner_bad: Vec<String> = Vec::new();
+    if nested {
+        counts.push("fault.nested_feed_inside_callback");
+    }
     {
         let mut closure = |t: Tok| -> bool {
             if stopped {
                 calls_after_false += 1;
+            }
+            if nested {
+                let mut inner_seen: Vec<u64> = Vec::new();
+                let mut inner = |v: u64| -> bool {
+                    inner_seen.push(v);
+                    inner_seen.len() < 2
+                };
+                let base = t.id as u64 * 10;
+                let n = (base..base + 3).feed_into(OpaqueCallback::from(&mut inner));
+                if n != 2 || inner_seen != [base, base + 1] {
+                    inner_bad.push(format!("inside the callback's call for item {}: an inner feed of [{}, {}, {}] into a callback that stops at its second item reported {} and delivered {:?}", t.id, base, base + 1, base + 2, n, inner_seen));
+                }
             }
             seen.push(t.id);
             held.push(t);
@@ -244,6 +262,7 @@ fn feed_step(st: &mut State, step: &Step, counts: &mut Vec<&'static str>) -> Res
     calls_after_false += fsink.calls_after_false;
     let site = format!("sink{}:via{}", sink_kind, via);
     let want: Vec<u32> = ids[..offered].to_vec();
+    vcheck!(inner_bad.is_empty(), "feed.nested_feed", &site, "{}", inner_bad.join("; "));
     vcheck!(calls_after_false == 0, "feed.called_after_stop", &site, "sink was invoked {} more time(s) after it answered false", calls_after_false);
     vcheck!(got == want, "feed.sequence_mismatch", &site, "sink saw items {:?}, offered prefix is {:?} (source {:?}, stop_at {:?}, none_at {:?})", got, want, ids, stop_at, none_at);
     if let Some(c) = count {
@@ -501,7 +520,7 @@ impl Engine for FeedEngine {
                         _ => rng.range(-1, len),
                     };
                     let via = if c_party && rng.chance(1, 4) { 4 } else { rng.range(0, 3) };
-                    p.push(t, op, &[len, none_at, sink, stop, via, rng.range(0, 1)]);
+                    p.push(t, op, &[len, none_at, sink, stop, via, rng.range(0, 3)]);
                 }
                 "ISrc" => {
                     let len = rng.range(0, 8);
